@@ -344,7 +344,9 @@ Definition stats_unfixed_cfg  := mkCfg LoopNone    true  ChNone     SendNever   
 Definition packetdump_cfg     := mkCfg LoopAtNew   true  ChUnbufSel SendOnTraffic false CloseIdem TNone    false false false SpawnNone.
 Definition pacing_cfg         := mkCfg LoopAtNew   true  ChBufNB    SendOnTraffic true  CloseIdem TNone    false false false SpawnNone.
 Definition pacing_unfixed_cfg := mkCfg LoopAtNew   true  ChBufNB    SendOnTraffic true  CloseRaw  TNone    false false false SpawnNone.
-Definition gcc_cfg            := mkCfg LoopAtNew   true  ChBufNB    SendOnTraffic true  CloseIdem TNone    false false false SpawnNone.
+(* gcc: the pacer keeps one writer per SSRC (LeakyBucketPacer.ssrcToWriter); since the fix: commit of the
+   deepening round cc.Interceptor.UnbindLocalStream removes it; AddStream always replaces it *)
+Definition gcc_cfg            := mkCfg LoopAtNew   true  ChBufNB    SendOnTraffic true  CloseIdem TPerSsrc true  true  false SpawnNone.
 Definition gcc_unfixed_cfg    := mkCfg LoopAtNew   false ChBufNB    SendOnTraffic true  CloseRaw  TNone    false false false SpawnNone.
 Definition jitterbuffer_cfg   := mkCfg LoopNone    true  ChNone     SendNever     false CloseIdem TShared  true  false false SpawnNone.
 Definition flexfec_cfg        := mkCfg LoopNone    false ChNone     SendNever     false CloseIdem TPerSsrc true  true  false SpawnNone.
